@@ -344,11 +344,11 @@ def cases(draw, tier):
     outcls = name.split(".")[0]
     n = 10 if tier == "quick" else 14
     if outcls == "H":
-        op = hops.op_strategy(kind, none_p=False, bulk_empty=False, heavy=False, only=H_ADD)
+        op = hops.op_strategy(kind, none_p=True, bulk_empty=False, heavy=False, only=H_ADD)
     elif outcls == "DH":
-        op = dhops.op_strategy(kind, none_p=False, only=DH_ADD)
+        op = dhops.op_strategy(kind, none_p=True, only=DH_ADD)
     else:
-        op = scops.op_strategy(kind, none_p=False, unique_bulk=True, only=SC_ADD)
+        op = scops.op_strategy(kind, none_p=True, unique_bulk=True, only=SC_ADD)
     ops = draw(st.lists(op, min_size=1, max_size=n))
     return {"builder": name, "kind": kind, "base": spec, "idcast": idcast, "seed": draw(st.integers(0, 10**6)), "ops": ops}
 
